@@ -184,7 +184,7 @@ func main() {
 	}
 	for _, o := range e.obls {
 		if (*prop == "all" && (len(o.Props) > 0 || o.ExpectSat || o.Kind == "lemma" || (safetyReach[o.Fn] && isSafetyKind(o.Kind)))) || contains(o.Props, *prop) || (pulled[o.Fn] && len(o.Props) > 0) ||
-			(pulled[o.Fn] && safetyClosureProps[*prop] && isSafetyKind(o.Kind)) ||
+			((pulled[o.Fn] || primaryFn[o.Fn]) && safetyClosureProps[*prop] && isSafetyKind(o.Kind)) ||
 			(*prop != "all" && strings.HasPrefix(o.Kind, "inv#") && primaryFn[o.Fn]) {
 			// (loop invariants are helper clauses: a clause tagged with this property may rest on them, so they are
 			// checked with every property the function takes part in)
